@@ -33,7 +33,7 @@ STUB = ['AXI master', 'AXI slave', 'kernel controller (start/reset/done/load)']
 ASSUMPTIONS = ['"accepted beat" is taken in the adapter\'s own sense: VALID & READY & active in the same cycle',
                'done is only pulsed after a beat was transferred in the current activation',
                'TDATA is only checked against load pulses given while the adapter was active']
-PROBES = ['beat', 'backpressure_hold', 'reset_in_beat_cycle', 'reset_while_pending', 'done_after_transfer', 'restart_active',
+PROBES = ['register_wider_than_64', 'beat', 'backpressure_hold', 'reset_in_beat_cycle', 'reset_while_pending', 'done_after_transfer', 'restart_active',
           'restart_inactive', 'load_while_pending', 'load_in_beat_cycle', 'back_to_back', 'kernel_done']
 
 
@@ -48,6 +48,12 @@ def gen(rs, tier, index):
            'p_start': rng.choice([0.05, 0.15, 0.4]), 'p_load': rng.choice([0.05, 0.2, 0.6]),
            'p_ready': rng.choice([0.1, 0.5, 0.9, 1.0]), 'p_valid': rng.choice([0.1, 0.5, 0.9, 1.0]),
            'stall_len': rng.choice([0, 3, 12])}
+    # stream width: registers wider than 64 bits sit on wider streams (128 / 512 bit data)
+    scn['sw'] = 64
+    if mode != 'kernel' and rng.random() < 0.25:
+        scn['sw'] = rng.choice([128, 512])
+        scn['w'] = rng.choice([64, 65, 96, 128, rng.randint(1, scn['sw']), scn['sw']])
+        scn['w'] = min(scn['w'], scn['sw'])
     if mode == 'kernel':
         scn['k'] = rng.randint(1, 3)
         scn['m'] = rng.randint(1, 2)
@@ -57,8 +63,8 @@ def gen(rs, tier, index):
     return scn
 
 
-def mkstream(hw, name):
-    return AXI4StreamInterface(hw, name, 64, has_tlast=True, has_tkeep=True)
+def mkstream(hw, name, sw=64):
+    return AXI4StreamInterface(hw, name, sw, has_tlast=True, has_tkeep=True)
 
 
 # --------------------------------------------------------------------------- monitors
@@ -165,7 +171,10 @@ def run_a2r(scn, log, st):
     W = scn['w']
     hw = py4hw.HWSystem()
     start, reset, done = hw.wire('ap_start'), hw.wire('ap_reset'), hw.wire('ap_done')
-    s = mkstream(hw, 's')
+    SW = scn.get('sw', 64)
+    s = mkstream(hw, 's', SW)
+    if W > 64:
+        st.probe('register_wider_than_64')
     q, loaded, active = hw.wire('q', W), hw.wire('loaded'), hw.wire('active')
     Axi2Reg(hw, 'dut', start, reset, done, s, q, loaded, active)
     with quiet():
@@ -187,13 +196,13 @@ def run_a2r(scn, log, st):
                 if stall > 0:
                     stall -= 1
                 elif prng.random() < scn['p_valid']:
-                    m_valid, m_data = 1, prng.getrandbits(64) if prng.random() < 0.8 else prng.choice([0, (1 << 64) - 1, 1 << 63])
+                    m_valid, m_data = 1, prng.getrandbits(SW) if prng.random() < 0.8 else prng.choice([0, (1 << SW) - 1, 1 << (SW - 1)])
                 elif scn['stall_len'] and prng.random() < 0.1:
                     stall = prng.randint(1, scn['stall_len'])
                     st.fault('gap')
         else:
             m_valid = 1 if prng.random() < scn['p_valid'] else 0
-            m_data = prng.getrandbits(64)
+            m_data = prng.getrandbits(SW)
         for w, v in ((start, a_start), (reset, a_reset), (done, a_done), (s.tvalid, m_valid), (s.tdata, m_data)):
             w.put(v)
         sim.propagateAll()
@@ -243,7 +252,9 @@ def run_r2a(scn, log, st):
     hw = py4hw.HWSystem()
     start, reset, done, load = hw.wire('ap_start'), hw.wire('ap_reset'), hw.wire('ap_done'), hw.wire('load_outs')
     reg_in = hw.wire('reg_in', W)
-    s = mkstream(hw, 's')
+    s = mkstream(hw, 's', scn.get('sw', 64))
+    if W > 64:
+        st.probe('register_wider_than_64')
     sent, active = hw.wire('sent'), hw.wire('active')
     Reg2Axi(hw, 'dut', start, reset, done, load, reg_in, s, sent, active)
     with quiet():
